@@ -200,6 +200,8 @@ def b_list(E, st, node, args, kw):
 def b_tuple(E, st, node, args, kw):
     if not args:
         return [(st, (), None)]
+    if isinstance(args[0], LazyComp):
+        return [(st, E.fresh("tuple", U), None)]  # opaque: nothing is assumed about it
     seq = E.as_seq(st, args[0])
     if seq.items is None:
         raise Unsupported("tuple() of symbolic sequence")
